@@ -262,9 +262,6 @@ func endReturnsError(e *feEnd) (isErr, known bool) {
 		if isErrorCtor(x) {
 			// Wrap/Wrapf(err, ..) is nil when err is nil: it only counts as an error
 			// when the wrapped value is known non-nil on this path
-			if isWrapCall(x) && !wrapAlwaysNonNil(x) {
-				return wrappedNonNil(e, x.Call.Args[0], 0)
-			}
 			return true, true
 		}
 	}
@@ -280,32 +277,86 @@ func endReturnsError(e *feEnd) (isErr, known bool) {
 	return false, false
 }
 
-// isErrorCtor recognises calls that always return a non-nil error.
+// isErrorCtor recognises calls that always return a non-nil error: the
+// standard constructors, and any function with a body all of whose returns
+// yield such a value (computed from the callee's own SSA, so helpers like
+// unexpectedToken or an extracted errInvalidOperation need no list).
 func isErrorCtor(c *ssa.Call) bool {
 	fn := c.Common().StaticCallee()
 	if fn == nil {
 		return false
 	}
+	return fnAlwaysErr(fn, 0)
+}
+
+var alwaysErrMemo = map[*ssa.Function]int{} // 0 unknown, 1 yes, 2 no, 3 in progress
+
+func fnAlwaysErr(fn *ssa.Function, depth int) bool {
+	if fn.Origin() != nil {
+		fn = fn.Origin()
+	}
+	switch alwaysErrMemo[fn] {
+	case 1:
+		return true
+	case 2, 3:
+		return false
+	}
 	pkg := ""
 	if fn.Pkg != nil {
 		pkg = fn.Pkg.Pkg.Path()
-	} else if o := fn.Origin(); o != nil && o.Pkg != nil {
-		pkg = o.Pkg.Pkg.Path()
 	}
 	name := fn.Name()
 	switch pkg {
-	case "github.com/go-faster/errors", "errors", "fmt":
-		switch name {
-		case "New", "Errorf", "Wrap", "Wrapf":
-			// Wrap(err) returns nil iff err is nil; callers use it on non-nil errors only.
-			return name == "New" || name == "Errorf" || name == "Wrap" || name == "Wrapf"
+	case "errors":
+		if name == "New" {
+			alwaysErrMemo[fn] = 1
+			return true
+		}
+	case "fmt":
+		if name == "Errorf" {
+			alwaysErrMemo[fn] = 1
+			return true
 		}
 	}
-	// first-party helper: (*parser).unexpectedToken always returns a non-nil error
-	if isFunc(fn, modPath+"/"+logqlPkg, "(*parser).unexpectedToken") {
-		return true
+	res := fn.Signature.Results()
+	if depth > 4 || res.Len() != 1 || !isErrorType(res.At(0).Type()) {
+		alwaysErrMemo[fn] = 2
+		return false
 	}
-	return false
+	if fn.Blocks == nil && fn.Pkg != nil {
+		fn.Pkg.Build()
+	}
+	if len(fn.Blocks) == 0 {
+		alwaysErrMemo[fn] = 2
+		return false
+	}
+	alwaysErrMemo[fn] = 3
+	ok := true
+	for _, ret := range returnsOf(fn) {
+		for _, lv := range phiLeaves(ret.Results[0]) {
+			switch x := lv.(type) {
+			case *ssa.MakeInterface:
+				if _, isAlloc := x.X.(*ssa.Alloc); !isAlloc {
+					if _, isConst := x.X.(*ssa.Const); isConst {
+						ok = false
+					}
+				}
+			case *ssa.Call:
+				callee := x.Common().StaticCallee()
+				if callee == nil || !fnAlwaysErr(callee, depth+1) {
+					ok = false
+				}
+			default:
+				ok = false
+			}
+		}
+	}
+	if ok {
+		alwaysErrMemo[fn] = 1
+	} else {
+		alwaysErrMemo[fn] = 2
+	}
+	return ok
 }
 
 // fieldStores lists, for a path, the evaluated values stored into fields with
@@ -479,9 +530,6 @@ func wrappedNonNil(e *feEnd, w ssa.Value, depth int) (bool, bool) {
 		return true, true
 	case *ssa.Call:
 		if isErrorCtor(x) {
-			if isWrapCall(x) && !wrapAlwaysNonNil(x) {
-				return wrappedNonNil(e, x.Call.Args[0], depth+1)
-			}
 			return true, true
 		}
 	}
